@@ -14,7 +14,7 @@ from . import configs, seqcheck, engine  # noqa: E402
 SEQ = {
     "C01": (["C01."], ["limits", "randsched", "typestate", "core"]),
     "C02": (["C02."], ["core", "randsched", "eom", "fine", "retarget", "oddmin"]),
-    "C03": (["C03."], ["core", "randsched", "eom", "fine", "phasejump", "localconf", "oddmin"]),
+    "C03": (["C03."], ["core", "randsched", "eom", "eomdrift", "fine", "phasejump", "localconf", "oddmin"]),
     "C18": (["C18."], ["switch", "rel"]),
     "C04": (["C04."], ["rel"]),
     "C05": (["C05."], ["ham"]),
@@ -22,7 +22,7 @@ SEQ = {
     "C07": (["C07."], ["phases", "core", "randsched", "eom", "eomdrift", "phasejump", "typestate"]),
     "C08": (["C08."], ["template", "mappable"]),
     "C09": (["C09."], ["core", "typestate", "randsched", "eom", "limits", "template", "rel"]),
-    "C10": (["C10."], ["core", "randsched", "eom", "fine", "retarget", "phasejump", "oddmin"]),
+    "C10": (["C10."], ["core", "randsched", "eom", "eomdrift", "fine", "retarget", "phasejump", "oddmin"]),
     "C13": (["C13."], ["typestate", "eom", "template"]),
     "C15": (["C15."], ["eom", "eomdrift", "render"]),
 }
@@ -97,4 +97,12 @@ def main():
 
 
 if __name__ == "__main__":
-    main()
+    try:
+        main()
+    except SystemExit:
+        raise
+    except BaseException:  # noqa: BLE001  (a crash of the machinery is not a verdict about the property)
+        import traceback
+        traceback.print_exc()
+        print("MACHINERY-FAILURE: unexpected exception in the harness")
+        sys.exit(2)
